@@ -231,6 +231,26 @@ func InDRPC(snap []G) []G {
 	return out
 }
 
+// IDs returns the set of goroutine ids of a snapshot (a baseline for leak checks).
+func IDs(snap []G) map[int64]bool {
+	out := make(map[int64]bool, len(snap))
+	for _, g := range snap {
+		out[g.ID] = true
+	}
+	return out
+}
+
+// NewSince filters out the goroutines that already existed in the baseline.
+func NewSince(gs []G, base map[int64]bool) []G {
+	var out []G
+	for _, g := range gs {
+		if !base[g.ID] {
+			out = append(out, g)
+		}
+	}
+	return out
+}
+
 // Dump renders goroutines compactly for witnesses.
 func Dump(gs []G) string {
 	var b strings.Builder
